@@ -84,6 +84,39 @@ def discover():
     return out
 
 
+STUB_SETS = {
+    "std": ["std::hash::RandomState::new, crate::style::verif_rig_style::stub_rs",
+            "console::colors_enabled, crate::verif_common::stub_false",
+            "console::colors_enabled_stderr, crate::verif_common::stub_false"],
+    "width": ["console::measure_text_width, crate::verif_common::stub_width"],
+    "widthascii": ["console::measure_text_width, crate::verif_common::stub_width_ascii"],
+    "repeat": ["str::repeat, crate::verif_common::stub_repeat"],
+    "now": ["std::time::Instant::now, crate::verif_common::stub_now"],
+    "noterm": ["console::Term::is_term, crate::draw_target::verif_rig_dt::no_term_is_term",
+               "console::Term::size, crate::draw_target::verif_rig_dt::no_term_size"],
+    "nomulti": ["crate::multi::MultiState::draw, crate::draw_target::verif_rig_dt::no_multi_draw",
+                "crate::multi::MultiState::draw_state, crate::draw_target::verif_rig_dt::no_multi_draw_state",
+                "crate::multi::MultiState::width, crate::draw_target::verif_rig_dt::no_multi_width",
+                "crate::multi::MultiState::is_hidden, crate::draw_target::verif_rig_dt::no_multi_is_hidden",
+                "crate::multi::MultiState::mark_zombie, crate::draw_target::verif_rig_dt::no_multi_mark_zombie"],
+    "norender": ["crate::style::ProgressStyle::format_state, crate::style::verif_rig_style::no_format_state"],
+}
+
+
+def expand_stubs(text):
+    """`//@STUBS a b c` lines in harness files expand to the #[kani::stub(..)] attributes of the named sets."""
+    out = []
+    for ln in text.split("\n"):
+        m = re.match(r"^(\s*)//@STUBS (.*)$", ln)
+        if m:
+            for name in m.group(2).split():
+                for st in STUB_SETS[name]:
+                    out.append("%s#[kani::stub(%s)]" % (m.group(1), st))
+        else:
+            out.append(ln)
+    return "\n".join(out)
+
+
 def _wanted(path, prop):
     """Shared files (no @harness annotation) are always included; harness files only for their property, so a
     harness that stops compiling after a source change cannot break the checks of other properties."""
@@ -115,7 +148,7 @@ def make_overlay(dst, extra_tests=None, prop=None):
         target = os.path.join(dst, "src", src + ".rs")
         if not os.path.exists(target):
             raise SystemExit("harness dir %s has no matching src/%s.rs in the repository" % (src, src))
-        text = open(path).read()
+        text = expand_stubs(open(path).read())
         if extra_tests and path in extra_tests:
             k = text.rstrip().rfind("}")
             text = text[:k] + "\n" + extra_tests[path] + "\n}\n"
